@@ -42,7 +42,7 @@ func (g Complement) From(uid int64) Nodes {
 func (g Complement) HasEdgeBetween(xid, yid int64) bool {
 	return xid != yid &&
 		g.Node(xid) != nil && g.Node(yid) != nil &&
-		!g.Graph.HasEdgeBetween(xid, yid)
+		(g.Graph.Edge(xid, yid) == nil || g.Graph.Edge(yid, xid) == nil)
 }
 
 // shadow is an edge that is not exposed to the user.
